@@ -99,6 +99,24 @@ class Driver(LineProc):
     def __init__(self):
         super().__init__([DRIVER_BIN])
 
+    def ask(self, obj, timeout=600.0):
+        """as LineProc.ask, but a model that does not answer within `timeout` seconds is killed and restarted (the answer
+        is then None, which every caller treats as a failure of the model, never as a verdict about the implementation)"""
+        import threading
+        res = {}
+
+        def target():
+            res["a"] = LineProc.ask(self, obj)
+        t = threading.Thread(target=target, daemon=True)
+        t.start()
+        t.join(timeout)
+        if t.is_alive():
+            self.p.kill()
+            t.join(5)
+            self.start()
+            return None
+        return res.get("a")
+
     def run(self, case, impl):
         a = self.ask({"case": case, "impl": impl})
         if a is None:
